@@ -61,9 +61,17 @@ def _crop_idx(L, s, i, j):
     return s.crop(s.wave[i] * (1 - 1e-12), s.wave[j] * (1 + 1e-12))
 
 
+def _assign_values(L, s, seed):
+    """The owner assigns new values, one per current wavelength, through the documented attribute."""
+    g = np.random.Generator(np.random.PCG64(int(seed)))
+    s.value = np.round(g.uniform(0.0, 1.0, size=len(s.wave)), 3)
+    return None
+
+
 FNS = {
     # ---- generic
     'h.crop_idx': _crop_idx,
+    'h.assign_values': _assign_values,
     'call': _call,
     'callm': _callm,
     'attr': _attr,
@@ -162,6 +170,9 @@ FNS = {
     'Spectrum.divide': _method('divide'),
     'Spectrum.power': _method('power'),
     's+': _binop('+'), 's-': _binop('-'), 's*': _binop('*'), 's/': _binop('/'), 's**': _binop('**'),
+    's+=': lambda L, a, b: __import__('operator').iadd(a, b), 's-=': lambda L, a, b: __import__('operator').isub(a, b),
+    's*=': lambda L, a, b: __import__('operator').imul(a, b), 's/=': lambda L, a, b: __import__('operator').itruediv(a, b),
+    's**=': lambda L, a, b: __import__('operator').ipow(a, b),
     'Spectrum.sample': _method('sample'),
     'Spectrum.integrate': _method('integrate'),
     'Spectrum.bin': _method('bin'),
